@@ -183,7 +183,20 @@ func main() {
 	chunks := flag.Int("chunks", 16, "number of trace files / parallel workers")
 	scratch := flag.String("scratch", "", "directory for the small files some mutators serve")
 	flag.BoolVar(&debug, "debug", false, "add the differing values to Copy/Probe events (development aid)")
+	list := flag.Bool("list", false, "print the names of the mutators this driver has, one per line, and exit")
 	flag.Parse()
+	if *list {
+		// the check runs only the cases whose mutators both the generator's table and this table know
+		names := make([]string, 0, len(byName))
+		for n := range byName {
+			names = append(names, n)
+		}
+		sort.Strings(names)
+		for _, n := range names {
+			fmt.Println(n)
+		}
+		return
+	}
 	if *scratch == "" {
 		fmt.Fprintln(os.Stderr, "x06: -scratch is required")
 		os.Exit(2)
@@ -198,6 +211,7 @@ func main() {
 		os.Exit(2)
 	}
 	var all []*Case
+	warned, skipped := map[string]bool{}, 0
 	sc := bufio.NewScanner(f)
 	sc.Buffer(make([]byte, 1<<20), 1<<26)
 	for sc.Scan() {
@@ -210,11 +224,20 @@ func main() {
 		for _, s := range c.Steps {
 			names = append(names, s.M)
 		}
+		known := true
 		for _, m := range names {
 			if byName[m] == nil {
-				fmt.Fprintf(os.Stderr, "x06: case %d names mutator %q which the driver's table does not have\n", c.ID, m)
-				os.Exit(2)
+				// the check filters such cases out beforehand (-list); run by hand, say so once per name and skip
+				if !warned[m] {
+					warned[m] = true
+					fmt.Fprintf(os.Stderr, "x06: mutator %q (first named by case %d) is not in the driver's table: cases naming it are skipped\n", m, c.ID)
+				}
+				known = false
 			}
+		}
+		if !known {
+			skipped++
+			continue
 		}
 		all = append(all, c)
 	}
@@ -247,7 +270,7 @@ func main() {
 		}(k)
 	}
 	wg.Wait()
-	fmt.Printf("{\"cases\":%d,\"chunks\":%d,\"copies\":%d,\"recycles\":%d,\"recycles_on_original_object\":%d,\"probes\":%d,\"probes_with_changes\":%d,\"mutators\":%d}\n",
+	fmt.Printf("{\"cases\":%d,\"chunks\":%d,\"copies\":%d,\"recycles\":%d,\"recycles_on_original_object\":%d,\"probes\":%d,\"probes_with_changes\":%d,\"mutators\":%d,\"cases_skipped_unknown_mutator\":%d}\n",
 		len(all), n, atomic.LoadInt64(&st.copies), atomic.LoadInt64(&st.recycles), atomic.LoadInt64(&st.recycledSame),
-		atomic.LoadInt64(&st.probes), atomic.LoadInt64(&st.changed), len(table))
+		atomic.LoadInt64(&st.probes), atomic.LoadInt64(&st.changed), len(table), skipped)
 }
